@@ -8,7 +8,7 @@
    conns s a  ordered partner list of channel a in the store s (newest first)
    step/exec  one op / an op list of the `conn` language: connect by method, assignment, call
               keyword, >> and <<; disconnect at channel, panel and node level; copy_connections,
-              copy_io; remove/add/replace child; wiring the dag, running a workflow, pulling.
+              copy_io; remove (by node, by label, by parent assignment) / add / replace child; wiring the dag, running a workflow, pulling.
               Iteration orders of Python sets and the outcome of value copies are arguments of
               the ops, so every theorem holds for all of them. *)
 From PW Require Import Base Chan ChanProofs.
@@ -85,6 +85,19 @@ Theorem C12_removed_unreferenced : forall W par kids lab ops o st' n,
 Proof. exact reachable_removed_unreferenced. Qed.
 Print Assumptions C12_removed_unreferenced.
 
+(* ... by ANY route: whatever op it was (remove_child by node or by label, n.parent = None,
+   n.parent = another composite, replace_child -- and no other op changes a parent), and
+   whatever its outcome, a node that is no longer a child of the composite it was in has only
+   empty channels and is listed by no channel anywhere. *)
+Theorem C12_left_unreferenced : forall W par kids lab ops o st' r n,
+  let st := exec W (init_state W par kids lab) ops in
+  step W st o = (st', r) ->
+  (exists w, parent st n = Some w /\ parent st' n <> Some w) ->
+  (forall c, (exists x, cget W c = Some x /\ c_owner x = n) -> conns (cn st') c = []) /\
+  (forall c x, In x (conns (cn st') c) -> ~ (exists y, cget W x = Some y /\ c_owner y = n)).
+Proof. exact reachable_left_unreferenced. Qed.
+Print Assumptions C12_left_unreferenced.
+
 (* Beyond the statement (the documented promise of the undo logs): a failed copy_connections,
    copy_io or replace_child in a reachable state leaves no connection that did not exist before.
    (The undo may also drop older connections -- DESIGN S13, which is property C14's business.) *)
@@ -105,12 +118,15 @@ Example C12_hyps_hold :
                        mkc i 5 Signal DIn None true false; mkc i 6 Signal DIn None true true;
                        mkc i 7 Signal DOut None true false; mkc i 8 Signal DOut None true false] in
   let W := node 0 HInt HInt ++ node 1 HStr HBool in
-  let st0 := init_state W [None; Some 0] [[1]] [0; 1] in
+  let st0 := init_state W [None; Some 0] [[1]; []] [0; 1] in
   let st1 := exec W st0 [OConnect 0 [7]; ORshift (SNode 0) (SNode 1)] in
   cn st1 = [[7]; []; []; []; [8]; []; []; [0]; [4]; []; []; []] /\
   step W st1 (OConnect 6 [1]) = (st1, Err ConnErr) /\
   step W st1 (OAssign 0 (SChan 6)) = (st1, Err TypeErr) /\
   step W st1 (ODisconnect 0 [1]) = (st1, Ok) /\
   cn (fst (step W st1 (ORemove 0 1))) = [[]; []; []; []; []; []; []; []; []; []; []; []] /\
-  snd (step W st1 (ORemove 0 1)) = Ok.
+  snd (step W st1 (ORemove 0 1)) = Ok /\
+  (let st2 := fst (step W st1 (OSetParent 1 (Some 1))) in      (* hand-over to workflow 1 *)
+   parent st1 1 = Some 0 /\ parent st2 1 = Some 1 /\
+   cn st2 = [[]; []; []; []; []; []; []; []; []; []; []; []]).
 Proof. vm_compute. repeat split; reflexivity. Qed.
